@@ -25,10 +25,14 @@ def setup():
     if bad:
         print('FORBIDDEN vernacular found:', bad)
         return 1
-    with core.BuildLock():
-        core.write_coqproject()
-        targets = [f[:-2] + '.vo' for f in core.coq_files()]
-        okm, out, cmd = core.make(targets, timeout=3000)
+    core.write_coqproject()
+    from concurrent.futures import ThreadPoolExecutor
+    files = core.coq_files()
+    roots = [f for f in files if f.startswith('props/')] + files
+    with ThreadPoolExecutor(max_workers=12) as ex:
+        results = list(ex.map(lambda f: core.make([f], timeout=3000), roots))
+    okm = all(r[0] for r in results)
+    out = '\n'.join(r[1] for r in results if r[1])
     print(out[-3000:])
     print('setup: translator %s, make %s, %.0fs' % ('ok' if ok else 'REFUSED', 'ok' if okm else 'FAILED', time.time() - t0))
     # setup failing to build a file is reported but not fatal: each check re-builds its own closure
@@ -53,8 +57,7 @@ def main():
         print('\n'.join(msgs))
         sys.exit(0 if ok else 1)
     if a.build:
-        with core.BuildLock():
-            ok, out, cmd = core.make([f[:-2] + '.vo' for f in a.build])
+        ok, out, cmd = core.make([f[:-2] + '.vo' for f in a.build])
         print(out[-6000:])
         print('BUILD', 'OK' if ok else 'FAILED')
         sys.exit(0 if ok else 1)
